@@ -3,7 +3,9 @@ from . import programs as P
 from . import streams
 from .results import Ext, Py26, Py27, Twisted, OUTCOMES
 
-FLAVOURS = ["ext", "py26", "py27", "twisted", "real", "stream", "none"]
+FLAVOURS = ["ext", "py26", "py27", "twisted", "real", "stream", "none", "stdlib", "locals"]
+# "stdlib": a probed unittest.TestResult (the real one, with addSubTest / addDuration and no details protocol);
+# "locals": a probed testtools.TestResult(tb_locals=True)
 STATUS_TO_OUTCOME = {"success": "addSuccess", "fail": "addFailure", "skip": "addSkip", "xfail": "addExpectedFailure",
                      "uxsuccess": "addUnexpectedSuccess"}
 
@@ -30,17 +32,22 @@ def run_program(prog, flavour, case=None, live=None, runner=None):
         res = Py27(log=shared)
     elif flavour == "twisted":
         res = Twisted(log=shared)
-    elif flavour == "real":
-        class Probe(testtools.TestResult):
+    elif flavour in ("real", "stdlib", "locals"):
+        import unittest
+        base = unittest.TestResult if flavour == "stdlib" else testtools.TestResult
+
+        class Probe(base):
             pass
         for m in ("startTest", "stopTest") + OUTCOMES:
             def mk(m):
                 def f(self, test, *a, **kw):
+                    # the real method first: a call it rejects (details= to the stdlib result) is not an event
+                    r = getattr(base, m)(self, test, *a, **kw)
                     shared.append((m, test, {"details": kw.get("details"), "args": a}))
-                    return getattr(testtools.TestResult, m)(self, test, *a, **kw)
+                    return r
                 return f
             setattr(Probe, m, mk(m))
-        res = Probe()
+        res = Probe(tb_locals=True) if flavour == "locals" else Probe()
     elif flavour == "stream":
         rec = streams.Recorder(log=shared)
         res = testtools.ExtendedToStreamDecorator(rec)
